@@ -241,7 +241,7 @@ impl Check for C10 {
         let pool = &POOLS[lang];
         let mut cfg = GenCfg::swarm(rng);
         cfg.w[11] = cfg.w[11].max(3) * 2; // ambiguity triggers matter here
-        let na = rng.range(0, 15);
+        let na = if rng.chance(1, 64) { rng.range(40, 200) } else { rng.range(0, 15) };
         let mut a = gen_text(rng, pool, &cfg, na);
         let nb = rng.range(0, 15);
         let mut b = gen_text(rng, pool, &cfg, nb);
